@@ -385,6 +385,12 @@ func genGraph(r rng, seed uint64, id, family string, k Knobs) *sdl.Program {
 			if z > 0 && r.p(0.7) {
 				t.Ifaces = p.Types[len(p.Types)-1].Ifaces
 			}
+			if z == nz-1 && r.p(0.4) {
+				t.Primary = true // the one field-less candidate that must win
+			}
+			if r.p(0.15) {
+				t.Lazy = true
+			}
 			p.Types = append(p.Types, t)
 			p.Instances = append(p.Instances, &sdl.Instance{ID: fmt.Sprintf("c%d", ni), Type: t.Name})
 			ni++
